@@ -249,6 +249,25 @@ def drive_default(chk, rng, thorough):
             continue
         if abs(got - want) > 1e-9 * abs(want):
             chk.diverge({"clause": "float-root-factor", "src": "default-registry"}, {"unit": n, "expected": want, "observed": got})
+    # integer-typed numpy magnitudes convert like Python numbers: no wrap-around, identity after there and back
+    import numpy as np
+    for dt in ("int32", "int64", "uint8", "int16"):
+        for a, b, vals in (("kilometer", "meter", [3, 200]), ("kilometer", "meter", [3000000]), ("exameter", "meter", [10, 20]), ("kilometer / hour", "meter / hour", [100]),
+                           ("megagram", "gram", [250])):
+            arr = np.array(vals).astype(dt) if max(vals) <= np.iinfo(dt).max else None
+            if arr is None:
+                continue
+            chk.case(("numpy-int", dt, a, b, tuple(vals)))
+            try:
+                r = uflt.Quantity(arr.copy(), a).to(b)
+                want = [float(uflt.Quantity(float(v), a).to(b).magnitude) for v in vals]
+                got = [float(x) for x in np.asarray(r.magnitude).ravel()]
+                back = [float(x) for x in np.asarray(r.to(a).magnitude).ravel()]
+            except Exception as e:
+                chk.diverge({"clause": "numpy-int-raises", "dtype": dt, "exc": type(e).__name__}, {"from": a, "to": b, "values": vals})
+                continue
+            if any(abs(g - w) > 1e-9 * abs(w) for g, w in zip(got, want)) or any(abs(x - v) > 1e-9 * abs(v) for x, v in zip(back, vals)):
+                chk.diverge({"clause": "numpy-int-conversion", "dtype": dt}, {"from": a, "to": b, "values": vals, "expected": want, "observed": got, "back": back})
     # root factor of every canonical unit
     for n in canon:
         try:
@@ -302,6 +321,21 @@ def drive_default(chk, rng, thorough):
             conv_event({a: e}, {b: e}, bridge=False)
     # case-insensitive registry: a correctly cased spelling means the same unit as in the case-sensitive registry
     uci = pint.UnitRegistry(non_int_type=F, case_sensitive=False)
+    # ... on every path that takes a unit as text: constructor, to / ito / m_as, ureg.convert, get_root_units
+    for a, b in (("INCH", "FOOT"), ("Mile", "Yard"), ("kiloMETER", "Meter"), ("Hour", "MINUTE")):
+        la, lb = a.lower(), b.lower()
+        want = ureg.Quantity(F(1), la).to(lb).magnitude
+        forms = {"to": lambda: uci.Quantity(F(1), a).to(b).magnitude, "m_as": lambda: uci.Quantity(F(1), a).m_as(b), "convert": lambda: uci.convert(F(1), a, b),
+                 "ito": lambda: (lambda q: (q.ito(b), q.magnitude)[1])(uci.Quantity(F(1), a)), "get_root_units": lambda: uci.get_root_units(a)[0] / uci.get_root_units(b)[0] * 1}
+        for fname, f in forms.items():
+            chk.case(("casei-path", a, b, fname))
+            try:
+                got = f()
+            except Exception as e:
+                chk.diverge({"clause": "case-insensitive-path-raises", "form": fname, "exc": type(e).__name__}, {"from": a, "to": b})
+                continue
+            if F(got) != F(want):
+                chk.diverge({"clause": "case-insensitive-path-value", "form": fname}, {"from": a, "to": b, "expected": str(want), "observed": str(got)})
     psp_all = dict(defreg._cache["sp"][1])
     lower_units = {}
     for sp_k, cn_k in usp.items():
